@@ -272,6 +272,7 @@ fn explore_case(idx: usize, case: &Case, deadline: Option<Instant>, want_sample:
     let t0 = Instant::now();
     let _ = take_obligations();
     let mut outcomes: HashSet<u64> = HashSet::new();
+    let outcomes_only = std::env::var_os("VERIF_OUTCOMES_ONLY").is_some();
     let mut found: BTreeMap<String, (u64, FoundViolation)> = BTreeMap::new();
     let mut sample: Option<Value> = None;
     let mut last_log: Vec<Entry> = Vec::new();
@@ -295,7 +296,10 @@ fn explore_case(idx: usize, case: &Case, deadline: Option<Instant>, want_sample:
         }
         let trace = Trace { log: &log, res };
         case.scene.observe(&trace);
-        for v in case.scene.check(&trace) {
+        // (VERIF_OUTCOMES_ONLY: the family is explored for its outcome sets alone - C18 compares
+        // them across the runtime builds; the property's own oracle is not this run's business)
+        let verdicts = if outcomes_only { vec![] } else { case.scene.check(&trace) };
+        for v in verdicts {
             let e = found.entry(v.key.clone()).or_insert_with(|| {
                 (
                     0,
@@ -335,7 +339,7 @@ fn explore_case(idx: usize, case: &Case, deadline: Option<Instant>, want_sample:
         }
         Ok(stats) => {
             let complete = !stats.wall_hit && !stats.case_capped;
-            for v in case.scene.finish(complete) {
+            for v in if outcomes_only { vec![] } else { case.scene.finish(complete) } {
                 found.entry(v.key.clone()).or_insert_with(|| {
                     (
                         1,
@@ -406,6 +410,11 @@ fn explore_case(idx: usize, case: &Case, deadline: Option<Instant>, want_sample:
     }
     if let Some(x) = case.scene.export() {
         out["export"] = x;
+    } else if std::env::var_os("VERIF_EXPORT_FILE").is_some() && outcomes.len() <= 4096 {
+        // any family can be compared across builds: the set of outcome hashes of the case
+        let mut hs: Vec<u64> = outcomes.iter().copied().collect();
+        hs.sort_unstable();
+        out["export"] = Value::Array(hs.into_iter().map(|h| json!([format!("{h:016x}"), ""])).collect());
     }
     out["obligations"] = json!(take_obligations());
     out
@@ -870,7 +879,8 @@ pub fn check_main(prop: &Property, tier: Tier) -> i32 {
         let mut m = serde_json::Map::new();
         for r in &results {
             if let (Some(d), Some(x)) = (r["desc"].as_str(), r.get("export")) {
-                m.insert(d.to_string(), json!({"outcomes": x, "complete": !r["wall_hit"].as_bool().unwrap_or(true), "schedules": r["schedules"]}));
+                let name = if prop.id == "C18" { d.to_string() } else { format!("family {}: {d}", prop.id) };
+                m.insert(name, json!({"outcomes": x, "complete": !r["wall_hit"].as_bool().unwrap_or(true) && !r["case_capped"].as_bool().unwrap_or(false), "schedules": r["schedules"]}));
             }
         }
         let _ = std::fs::write(&f, serde_json::to_string(&Value::Object(m)).unwrap());
